@@ -72,8 +72,17 @@ def _jsonable(v):
 
 
 # ------------------------------------------------------------------------------- worker side
+def _quiet():
+    import logging
+
+    logging.getLogger("lasio").setLevel(logging.CRITICAL)
+    logging.getLogger("lasio").addHandler(logging.NullHandler())
+    logging.getLogger("lasio").propagate = False
+
+
 def _worker_init(modname, active):
     global _MODULE, _ACTIVE_EXCL
+    _quiet()
     sys.path.insert(0, VERIF)
     if REPO not in sys.path:
         sys.path.insert(0, REPO)
@@ -179,6 +188,7 @@ def main(argv=None):
     modname = "checks.%s" % prop.lower()
     module = importlib.import_module(modname)
     t0 = time.time()
+    _quiet()
 
     if a.replay:
         inputs = json.load(open(a.replay))
